@@ -7,50 +7,12 @@
 // value / added / removed / modified items on every tick), two passive probes that wake every cycle through their own
 // scheduler and log the generic view (value, delta, modified, valid, last_modified_time), and a probe bound to a CHILD
 // (TSL element / TSB field). Everything is compared with a boring reference container per shape.
-#include "vpch.h"
-#include "vcommon.h"
+#include "tsshapes.h"
 using namespace hgraph;
+using namespace tsshapes;
 
 namespace
 {
-    long rel(DateTime t) { return t <= MIN_DT ? -1000 : static_cast<long>((t - MIN_ST).count()); }
-
-    std::vector<std::string> split(const std::string &s, char sep)
-    {
-        std::vector<std::string> out; std::string cur;
-        for (char c : s) { if (c == sep) { out.push_back(cur); cur.clear(); } else cur += c; }
-        out.push_back(cur);
-        return out;
-    }
-
-    std::string canon(const std::string &in)
-    {
-        std::string s = in;
-        std::size_t pos = 0;
-        while ((pos = s.find('{', pos)) != std::string::npos)
-        {
-            const std::size_t close = s.find_first_of("{}", pos + 1);
-            if (close == std::string::npos) break;
-            if (s[close] == '{') { pos = close; continue; }
-            std::vector<std::string> items; std::string cur; int depth = 0;
-            for (std::size_t i = pos + 1; i < close; ++i)
-            {
-                if (s[i] == '<') ++depth;
-                if (s[i] == '>') --depth;
-                if (s[i] == ',' && depth == 0) { items.push_back(cur); cur.clear(); if (i + 1 < close && s[i + 1] == ' ') ++i; }
-                else cur += s[i];
-            }
-            if (!cur.empty()) items.push_back(cur);
-            std::sort(items.begin(), items.end());
-            std::string rep = "<";
-            for (std::size_t i = 0; i < items.size(); ++i) rep += (i ? ", " : "") + items[i];
-            rep += ">";
-            s.replace(pos, close - pos + 1, rep);
-            pos = 0;
-        }
-        return s;
-    }
-
     // ---- observations -------------------------------------------------------------------------------------------
     struct Generic  // what any view exposes
     {
@@ -65,12 +27,6 @@ namespace
             o << "t" << t << (valid ? " valid" : " invalid") << (modified ? " modified" : "") << " lmt=" << lmt << " value=" << value << " delta=" << (delta_present ? delta : std::string{"<none>"});
             return o.str();
         }
-    };
-    struct Typed  // what the typed mirror reads on a tick
-    {
-        long t{0};
-        std::string value, added, removed, modified;
-        std::string str() const { return "t" + std::to_string(t) + " value=[" + value + "] added=[" + added + "] removed=[" + removed + "] modified=[" + modified + "]"; }
     };
     struct ChildObs { long t; int child; bool valid, modified; long lmt; std::string value; };
 
@@ -107,17 +63,6 @@ namespace
         if constexpr (std::is_base_of_v<TSOutputView, Out<S>>) return out; else return out.base();
     }
 
-    std::string join(const std::vector<std::string> &v) { std::string s; for (std::size_t i = 0; i < v.size(); ++i) s += (i ? "," : "") + v[i]; return s; }
-    std::string sorted_join(std::vector<std::string> v) { std::sort(v.begin(), v.end()); return join(v); }
-    template <typename C> std::string set_str(const C &c) { std::vector<std::string> v; for (auto x : c) v.push_back(std::to_string(static_cast<long>(x))); std::sort(v.begin(), v.end()); return "{" + join(v) + "}"; }
-
-    // ---- shapes ---------------------------------------------------------------------------------------------------
-    using PairL = TSL<TS<Int>, 2>;
-    using PairB = UnNamedTSB<Field<"a", TS<Int>>, Field<"b", TS<Int>>>;
-    using Win = TSW<Int, 3, 2>;
-    using DictI = TSD<Int, TS<Int>>;
-    using DictS = TSD<Int, TSS<Int>>;
-
     // reference model state (a superset serving every shape)
     struct Model
     {
@@ -136,142 +81,6 @@ namespace
         std::deque<long> win; long pushes{0};
         bool any_op{false};
         std::map<long, std::set<long>> graveyard;  // contents of keys erased earlier in the current cycle
-    };
-
-    struct ShapeTS
-    {
-        using S = TS<Int>;
-        static constexpr const char *name = "ts";
-        static void apply(const Out<S> &out, const std::string &op, DateTime now)
-        {
-            if (op[0] == 'v') out.set(Int{std::stol(op.substr(1))});
-            else if (op[0] == 'i') { auto m = static_cast<const TSOutputView &>(out).begin_mutation(now); (void)m.invalidate(); }
-        }
-        template <typename X> static Typed read(const X &x) { Typed t; t.value = std::to_string(static_cast<long>(x.value())); return t; }
-    };
-    struct ShapeTSS
-    {
-        using S = TSS<Int>;
-        static constexpr const char *name = "tss";
-        static void apply(const Out<S> &out, const std::string &op, DateTime)
-        {
-            if (op[0] == '+') (void)out.add(Int{std::stol(op.substr(1))});
-            else if (op[0] == '-') (void)out.remove(Int{std::stol(op.substr(1))});
-            else if (op[0] == 'c') out.clear();
-            else if (op[0] == 'B') { for (long k = 4; k <= 12; ++k) (void)out.add(Int{k}); }   // crosses the first slot-capacity boundaries
-            else if (op[0] == 'D') { for (long k = 4; k <= 12; ++k) (void)out.remove(Int{k}); }
-        }
-        template <typename X> static Typed read(const X &x) { Typed t; t.value = set_str(x.values()); t.added = set_str(x.added()); t.removed = set_str(x.removed()); return t; }
-    };
-    struct ShapeDictI
-    {
-        using S = DictI;
-        static constexpr const char *name = "tsd";
-        static void apply(const Out<S> &out, const std::string &op, DateTime)
-        {
-            if (op[0] == 's') { auto eq = op.find('='); out.set(Int{std::stol(op.substr(1, eq - 1))}, Int{std::stol(op.substr(eq + 1))}); }
-            else if (op[0] == 'e') (void)out.erase(Int{std::stol(op.substr(1))});
-            else if (op[0] == 'c') out.clear();
-            else if (op[0] == 'B') { for (long k = 4; k <= 12; ++k) out.set(Int{k}, Int{k * 10}); }
-        }
-        static std::string items(KeyValueRange<ValueView, In<"", TS<Int>>> range, bool with_value)
-        {
-            std::vector<std::string> v;
-            for (auto [k, c] : range)
-            {
-                std::string s = std::to_string(static_cast<long>(k.template checked_as<Int>()));
-                if (with_value) s += "=" + (c.valid() ? std::to_string(static_cast<long>(c.value())) : std::string{"?"});
-                v.push_back(s);
-            }
-            return "{" + sorted_join(v) + "}";
-        }
-        template <typename X> static Typed read(const X &x)
-        {
-            Typed t;
-            t.value = items(x.valid_items(), true);
-            t.added = items(x.added_items(), false);
-            t.removed = items(x.removed_items(), true);   // the removed child's value must stay readable during the removing cycle
-            t.modified = items(x.modified_items(), true);
-            return t;
-        }
-    };
-    struct ShapeDictS
-    {
-        using S = DictS;
-        static constexpr const char *name = "tsds";
-        static void apply(const Out<S> &out, const std::string &op, DateTime)
-        {
-            if (op[0] == 'a') { auto c = op.find(':'); (void)out[Int{std::stol(op.substr(1, c - 1))}].add(Int{std::stol(op.substr(c + 1))}); }
-            else if (op[0] == 'r') { auto c = op.find(':'); const Int k{std::stol(op.substr(1, c - 1))}; if (out.contains(k)) (void)out[k].remove(Int{std::stol(op.substr(c + 1))}); }
-            else if (op[0] == 'e') (void)out.erase(Int{std::stol(op.substr(1))});
-        }
-        template <typename X> static Typed read(const X &x)
-        {
-            Typed t;
-            std::vector<std::string> val, add, rem, mod;
-            for (auto [k, c] : x.items()) val.push_back(std::to_string(static_cast<long>(k.template checked_as<Int>())) + "=" + (c.valid() ? set_str(c.values()) : std::string{"?"}));
-            for (auto [k, c] : x.added_items()) add.push_back(std::to_string(static_cast<long>(k.template checked_as<Int>())));
-            for (auto [k, c] : x.removed_items()) rem.push_back(std::to_string(static_cast<long>(k.template checked_as<Int>())));
-            for (auto [k, c] : x.modified_items()) mod.push_back(std::to_string(static_cast<long>(k.template checked_as<Int>())) + "=+" + set_str(c.added()) + "-" + set_str(c.removed()));
-            t.value = "{" + sorted_join(val) + "}"; t.added = "{" + sorted_join(add) + "}"; t.removed = "{" + sorted_join(rem) + "}"; t.modified = "{" + sorted_join(mod) + "}";
-            return t;
-        }
-    };
-    struct ShapeTSL
-    {
-        using S = PairL;
-        static constexpr const char *name = "tsl";
-        static void apply(const Out<S> &out, const std::string &op, DateTime) { auto eq = op.find('='); out.set(static_cast<std::size_t>(std::stol(op.substr(0, eq))), Int{std::stol(op.substr(eq + 1))}); }
-        template <typename X> static Typed read(const X &x)
-        {
-            Typed t; std::vector<std::string> val, mod;
-            for (std::size_t i = 0; i < 2; ++i)
-            {
-                auto e = x[i];
-                val.push_back(std::to_string(i) + "=" + (e.valid() ? std::to_string(static_cast<long>(e.value())) : std::string{"?"}));
-                if (e.modified()) mod.push_back(std::to_string(i) + "=" + std::to_string(static_cast<long>(e.value())));
-            }
-            t.value = "{" + join(val) + "}"; t.modified = "{" + join(mod) + "}";
-            return t;
-        }
-    };
-    struct ShapeTSB
-    {
-        using S = PairB;
-        static constexpr const char *name = "tsb";
-        static void apply(const Out<S> &out, const std::string &op, DateTime)
-        {
-            const Int v{std::stol(op.substr(2))};
-            if (op[0] == 'a') out.template field<"a">().set(v); else out.template field<"b">().set(v);
-        }
-        template <typename X> static Typed read(const X &x)
-        {
-            Typed t; std::vector<std::string> val, mod;
-            int i = 0;
-            for (const char *f : {"a", "b"})
-            {
-                TSInputView e = static_cast<const TSBInputView &>(x).field(f);
-                val.push_back(std::to_string(i) + "=" + (e.valid() ? std::to_string(static_cast<long>(e.value().template checked_as<Int>())) : std::string{"?"}));
-                if (e.modified()) mod.push_back(std::to_string(i) + "=" + std::to_string(static_cast<long>(e.value().template checked_as<Int>())));
-                ++i;
-            }
-            t.value = "{" + join(val) + "}"; t.modified = "{" + join(mod) + "}";
-            return t;
-        }
-    };
-    struct ShapeTSW
-    {
-        using S = Win;
-        static constexpr const char *name = "tsw";
-        static void apply(const Out<S> &out, const std::string &op, DateTime) { out.push(Int{std::stol(op.substr(1))}); }
-        template <typename X> static Typed read(const X &x)
-        {
-            Typed t; std::vector<std::string> val;
-            const std::size_t n = static_cast<const TSWInputView &>(x).size();
-            for (std::size_t i = 0; i < n; ++i) val.push_back(std::to_string(static_cast<long>(x.at(i))));
-            t.value = "[" + join(val) + "]";
-            return t;
-        }
     };
 
     // ---- nodes ----------------------------------------------------------------------------------------------------
